@@ -265,6 +265,23 @@ def has_label_args(cl):
     return False
 
 
+def _pred_views(cl, r):
+    """what the predicate / state blocks of a run saw: {(blk, parser offset, seen line, col, off, text)}"""
+    kinds = core.block_kinds(cl)
+    return set((ev["blk"], ev["pt"][2], ev["line"], ev["col"], ev["off"], bytes(ev["text"]))
+               for ev in r["trace"] if kinds.get(ev["blk"]) in ("p", "s"))
+
+
+def stale_view_differs(cl, ra, rb):
+    """D27 signature: the grammar has a predicate that looks at c.pos / c.text (posge, tlen), and in one of the two
+    runs some predicate block, at some parser offset, saw a pos/text it never saw at that offset in the other run
+    (the pos/text a predicate sees are those of the most recently executed action, and a memo hit skips actions)"""
+    if " posge " not in cl and " tlen " not in cl:
+        return False
+    va, vb = _pred_views(cl, ra), _pred_views(cl, rb)
+    return va != vb
+
+
 def rel_c06(cl, tl, rel, ra, rb):
     if rel in ("debug", "stats"):
         fa = (ra["kind"], repr(ra["val"]), tuple(ra["errs"]), ra["cnt"], repr(ra["state"]), repr(ra["glob"]), repr(ra["trace"]))
@@ -280,6 +297,8 @@ def rel_c06(cl, tl, rel, ra, rb):
     if a != b:
         if has_label_args(cl):
             return ("known", "D7", "Memoize changes the result of a grammar whose blocks take label arguments")
+        if stale_view_differs(cl, ra, rb):
+            return ("known", "D27", "a predicate that reads c.pos / c.text sees the pos / text of another action when a memo hit skips one")
         if c["l"] and a[:2] == b[:2]:
             # D26: same value; the memoized run lacks block errors of the plain run (errors of a discarded
             # left-recursion growth attempt are rolled back, the memo entries made during it are not)
